@@ -53,6 +53,10 @@ checks = [
   "exhaustive single-fault enumeration (every prefix, bit flip, count/type/order substitution, nesting depth; JSON value grammar) over all valid encodings of a bounded corpus, executed in isolated single-goroutine workers with exact allocation accounting",
   "Every single fault of the listed kinds applied to every valid WKB/hex/GeoJSON encoding of the bounded structure-tree corpus, plus all byte strings of length <= 2, all headers, inflated nine-byte messages, deep nestings and a bounded JSON value grammar, is decoded by the real code; no panic, geometry xor error, allocation <= 256*len+64KiB measured exactly, success implies a re-encode/decode fixed point. Complete for single faults over the corpus; multi-fault and unrelated inputs are outside.",
   "Trusts runtime.MemStats.TotalAlloc deltas in a GOMAXPROCS=1 worker; a worker that dies or is silent for 90 s is attributed to the announced case.", "4/C07"),
+ ("C08", "exploration", "E1",
+  "exhaustive enumeration of a finite configuration x position lattice (projection parameterisations x ellipsoid / datum / unit / prime-meridian options x positions spanning the usable region) on the real proj package; round trips judged against the tolerances of the statement, excesses classified by step-wise comparison with the vendored proj4js under node",
+  "Every definition of the lattice (all 120 UTM zone/hemisphere values, six standard-parallel pairs per conic, every built-in ellipsoid and datum, spheres, feet, prime meridians, omitted optional parameters) is round-tripped at every lattice position from its own geographic base and from WGS84; complete over the lattice, silent between its points, which is all bounded enumeration can give for a numerical property over a continuum.",
+  "Excesses whose every step agrees with proj4js 2.3.12 to 0.1 mm are inherited behaviour (known findings); the reference runs under node with committed golden values as fallback.", "4/C08"),
  ("C11", MC, "E2",
   "explicit-state BFS over the real R-tree (deep clone per transition, canonical-state dedup) with structural invariants and brute-force SearchIntersect oracle in every state",
   "All insert/delete histories over a 6-8 object alphabet are explored to closure of the reachable state space for branching (2,4) and (2,5) (depth-bounded for (3,6)); neighbourhoods of height-3 seed trees to depth 5; every distinct state is checked against a multiset model with 104 query boxes and the balance/envelope/fan-out invariants read through an injected read-only walk.",
